@@ -144,30 +144,6 @@ func walkTemplate(n parse.Node, f func(parse.Node)) {
 	}
 }
 
-// normalizeTree renders a template tree for the sibling comparison.
-func normalizeTree(t *parse.Tree, perMessage bool) string {
-	s := t.Root.String()
-	if perMessage {
-		s = strings.ReplaceAll(s, ".Message.", ".")
-		s = strings.ReplaceAll(s, "(.Message)", ".")
-		s = strings.ReplaceAll(s, " .Message}}", " .}}")
-		s = strings.ReplaceAll(s, " .Message ", " . ")
-		s = strings.ReplaceAll(s, " .Message)", " .)")
-	}
-	// drop Go line comments and collapse white space in text
-	var out []string
-	for _, line := range strings.Split(s, "\n") {
-		if i := strings.Index(line, "//"); i >= 0 && !strings.Contains(line[:i], "\"") {
-			line = line[:i]
-		}
-		line = strings.Join(strings.Fields(line), " ")
-		if line != "" {
-			out = append(out, line)
-		}
-	}
-	return strings.Join(out, "\n")
-}
-
 func templateRules(r *core.Result, trees map[string]*parse.Tree) {
 	// determinism lint
 	names := make([]string, 0, len(trees))
@@ -208,42 +184,235 @@ func templateRules(r *core.Result, trees map[string]*parse.Tree) {
 	}
 	r.Floor("template define blocks parsed", len(names), 30)
 	r.Counts["template actions"] = nActions
-	// sibling sync
+	// sibling sync: structural comparison of the per-message part of SingleFile (the body of
+	// {{range allMessages}}, where dot is the message) with PerMessage (where the message is .Message)
 	sf, pm := trees["SingleFile"], trees["PerMessage"]
 	if sf == nil || pm == nil {
 		r.Fail("G-sibling", "SingleFile / PerMessage", "cmd/protoc-gen-fastmarshal/templates", "top-level template not found")
 		return
 	}
-	a, b := normalizeTree(sf, false), normalizeTree(pm, true)
-	// the single-file template wraps the per-message part in {{range allMessages}} … {{end}}: compare the
-	// per-message method bodies (from "func (m *" on) line by line
-	cut := func(s string) []string {
-		i := strings.Index(s, "func (m *")
-		if i < 0 {
-			return nil
+	var body *parse.ListNode
+	for _, n := range sf.Root.Nodes {
+		if rn, ok := n.(*parse.RangeNode); ok && strings.Contains(rn.Pipe.String(), "allMessages") {
+			body = rn.List
 		}
-		return strings.Split(s[i:], "\n")
 	}
-	la, lb := cut(a), cut(b)
+	if body == nil {
+		r.Fail("G-sibling", "SingleFile range allMessages", "cmd/protoc-gen-fastmarshal/templates", "the single-file template does not range over allMessages")
+		return
+	}
+	a := methodNodes(body.Nodes)
+	b := methodNodes(pm.Root.Nodes)
 	diff := ""
-	for i := 0; i < len(la) || i < len(lb); i++ {
-		var x, y string
-		if i < len(la) {
-			x = la[i]
-		}
-		if i < len(lb) {
-			y = lb[i]
-		}
-		if x != y {
-			// tolerate the closing {{end}} of the range wrapper at the very end
-			if strings.TrimSpace(strings.ReplaceAll(strings.ReplaceAll(x, "{{end}}", ""), "{{end}}", "")) == strings.TrimSpace(strings.ReplaceAll(y, "{{end}}", "")) {
-				continue
-			}
-			diff = fmt.Sprintf("first difference at normalised line %d: single-file %q vs per-message %q", i+1, x, y)
+	n := len(a)
+	if len(b) < n {
+		n = len(b)
+	}
+	compared := 0
+	for i := 0; i < n && diff == ""; i++ {
+		compared++
+		diff = eqTemplateNode(a[i], b[i], true)
+	}
+	if diff == "" && len(a) != len(b) {
+		diff = fmt.Sprintf("the single-file template has %d nodes per message, the per-message template %d", len(a), len(b))
+	}
+	r.Ob("G-sibling", "SingleFile and PerMessage templates emit the same methods", "cmd/protoc-gen-fastmarshal/templates", diff == "" && compared >= 25, diff)
+	r.Counts["template nodes compared (sibling sync)"] = compared
+}
+
+// methodNodes: the nodes from the first text mentioning "func (m *" on, with text nodes normalised away when blank.
+func methodNodes(nodes []parse.Node) []parse.Node {
+	start := -1
+	for i, n := range nodes {
+		if t, ok := n.(*parse.TextNode); ok && strings.Contains(string(t.Text), "Size calculates") {
+			start = i
 			break
 		}
 	}
-	r.Ob("G-sibling", "SingleFile and PerMessage templates emit the same methods", "cmd/protoc-gen-fastmarshal/templates", diff == "" && len(la) > 20, diff)
+	if start < 0 {
+		return nil
+	}
+	var out []parse.Node
+	for _, n := range nodes[start:] {
+		if t, ok := n.(*parse.TextNode); ok && strings.TrimSpace(string(t.Text)) == "" {
+			continue
+		}
+		out = append(out, n)
+	}
+	return out
+}
+
+func normText(s string) string {
+	var out []string
+	for _, line := range strings.Split(s, "\n") {
+		if i := strings.Index(line, "//"); i >= 0 {
+			line = line[:i]
+		}
+		line = strings.Join(strings.Fields(line), " ")
+		if line != "" {
+			out = append(out, line)
+		}
+	}
+	return strings.Join(out, "\n")
+}
+
+// eqTemplateNode compares a node of the single-file template (dot = message at top level) with the
+// corresponding node of the per-message template (message = .Message at top level). top tells whether
+// dot still is the message / the per-file arguments (false inside range / with, where dot is rebound
+// identically in both templates). Returns "" when equivalent.
+func eqTemplateNode(a, b parse.Node, top bool) string {
+	mismatch := func() string {
+		return fmt.Sprintf("single-file %q vs per-message %q", strings.TrimSpace(a.String()), strings.TrimSpace(b.String()))
+	}
+	if a == nil || b == nil {
+		if a == nil && b == nil {
+			return ""
+		}
+		return "one template has a node the other lacks"
+	}
+	switch x := a.(type) {
+	case *parse.TextNode:
+		y, ok := b.(*parse.TextNode)
+		if !ok || normText(string(x.Text)) != normText(string(y.Text)) {
+			return mismatch()
+		}
+	case *parse.ListNode:
+		y, ok := b.(*parse.ListNode)
+		if !ok {
+			return mismatch()
+		}
+		var xs, ys []parse.Node
+		if x != nil {
+			xs = filterBlank(x.Nodes)
+		}
+		if y != nil {
+			ys = filterBlank(y.Nodes)
+		}
+		if len(xs) != len(ys) {
+			return mismatch()
+		}
+		for i := range xs {
+			if d := eqTemplateNode(xs[i], ys[i], top); d != "" {
+				return d
+			}
+		}
+	case *parse.ActionNode:
+		y, ok := b.(*parse.ActionNode)
+		if !ok {
+			return mismatch()
+		}
+		return eqTemplateNode(x.Pipe, y.Pipe, top)
+	case *parse.PipeNode:
+		y, ok := b.(*parse.PipeNode)
+		if !ok || len(x.Cmds) != len(y.Cmds) || len(x.Decl) != len(y.Decl) {
+			return mismatch()
+		}
+		for i := range x.Decl {
+			if x.Decl[i].String() != y.Decl[i].String() {
+				return mismatch()
+			}
+		}
+		for i := range x.Cmds {
+			if d := eqTemplateNode(x.Cmds[i], y.Cmds[i], top); d != "" {
+				return d
+			}
+		}
+	case *parse.CommandNode:
+		y, ok := b.(*parse.CommandNode)
+		if !ok || len(x.Args) != len(y.Args) {
+			return mismatch()
+		}
+		for i := range x.Args {
+			if d := eqTemplateNode(x.Args[i], y.Args[i], top); d != "" {
+				return d
+			}
+		}
+	case *parse.DotNode:
+		if !top {
+			if _, ok := b.(*parse.DotNode); !ok {
+				return mismatch()
+			}
+			return ""
+		}
+		// at top level the message is dot in the single-file template and .Message in the per-message one
+		y, ok := b.(*parse.FieldNode)
+		if !ok || len(y.Ident) != 1 || y.Ident[0] != "Message" {
+			return mismatch() + " (in the per-message template dot is the argument struct, not the message)"
+		}
+	case *parse.FieldNode:
+		y, ok := b.(*parse.FieldNode)
+		if !ok {
+			return mismatch()
+		}
+		want := x.Ident
+		got := y.Ident
+		if top {
+			if len(got) == 0 || got[0] != "Message" {
+				return mismatch()
+			}
+			got = got[1:]
+		}
+		if strings.Join(want, ".") != strings.Join(got, ".") {
+			return mismatch()
+		}
+	case *parse.IfNode:
+		y, ok := b.(*parse.IfNode)
+		if !ok {
+			return mismatch()
+		}
+		return eqBranch(&x.BranchNode, &y.BranchNode, top, top)
+	case *parse.RangeNode:
+		y, ok := b.(*parse.RangeNode)
+		if !ok {
+			return mismatch()
+		}
+		return eqBranch(&x.BranchNode, &y.BranchNode, top, false)
+	case *parse.WithNode:
+		y, ok := b.(*parse.WithNode)
+		if !ok {
+			return mismatch()
+		}
+		return eqBranch(&x.BranchNode, &y.BranchNode, top, false)
+	case *parse.TemplateNode:
+		y, ok := b.(*parse.TemplateNode)
+		if !ok || x.Name != y.Name {
+			return mismatch()
+		}
+		return eqTemplateNode(x.Pipe, y.Pipe, top)
+	default:
+		// variables, identifiers, literals, chains: must be textually identical
+		if a.String() != b.String() || a.Type() != b.Type() {
+			return mismatch()
+		}
+	}
+	return ""
+}
+
+func eqBranch(x, y *parse.BranchNode, pipeTop, bodyTop bool) string {
+	if d := eqTemplateNode(x.Pipe, y.Pipe, pipeTop); d != "" {
+		return d
+	}
+	if d := eqTemplateNode(x.List, y.List, bodyTop); d != "" {
+		return d
+	}
+	if (x.ElseList == nil) != (y.ElseList == nil) {
+		return "else branch present in only one template"
+	}
+	if x.ElseList != nil {
+		return eqTemplateNode(x.ElseList, y.ElseList, pipeTop)
+	}
+	return ""
+}
+
+func filterBlank(nodes []parse.Node) []parse.Node {
+	var out []parse.Node
+	for _, n := range nodes {
+		if t, ok := n.(*parse.TextNode); ok && strings.TrimSpace(string(t.Text)) == "" {
+			continue
+		}
+		out = append(out, n)
+	}
+	return out
 }
 
 // mapRangeRule: no range over a Go map feeds an order-sensitive sink in the generator.
@@ -365,12 +534,16 @@ func checkC16(r *core.Result) {
 			r.Infra("%s: the runtime's own generator failed: %s", name, u.PBError)
 			continue
 		}
-		r.Ob("G-total", name, pos, u.PluginError == "", "protoc-gen-fastmarshal failed: "+firstLine(u.PluginError))
+		member := "[" + u.Combo.String() + "]"
+		r.GroupOb("G-total", "the plug-in succeeds for corpus file "+u.File.Pkg, member, pos, u.PluginError == "", "protoc-gen-fastmarshal failed: "+firstLine(u.PluginError))
 		if u.PluginError != "" {
 			continue
 		}
-		r.Ob("G-naming", name, pos, len(u.DupNames) == 0 && namesOK(u), fmt.Sprintf("output names %v; emitted more than once: %v", fmNames(u), u.DupNames))
-		r.Ob("G-compiles", name, pos, len(u.TypeErrors) == 0, strings.Join(firstN(u.TypeErrors, 3), " | "))
+		r.GroupOb("G-naming", "output names are distinct and follow the documented pattern for corpus file "+u.File.Pkg, member, pos, len(u.DupNames) == 0 && namesOK(u), fmt.Sprintf("output names %v; emitted more than once: %v (two messages map to one file name: the second overwrites / is concatenated to the first)", fmNames(u), u.DupNames))
+		if len(u.DupNames) > 0 {
+			continue // the concatenated file is an artefact of the collision
+		}
+		r.GroupOb("G-compiles", "the output type-checks for corpus file "+u.File.Pkg, member, pos, len(u.TypeErrors) == 0, strings.Join(firstN(u.TypeErrors, 3), " | "))
 	}
 	r.Floor("corpus units expanded", len(ex.Units), 70)
 	r.Sample(map[string]interface{}{"units": len(ex.Units), "combos": fmt.Sprint(combosFor(r.Tier))})
